@@ -93,7 +93,15 @@ type traceEv struct {
 	seq  int64
 	task int
 	pt   string
+	at   int64
 }
+
+// slotNS is the width of one scheduling slot. Every wake instant the harness schedules is
+// floor(t/slotNS)*slotNS + task.ID: two different tasks can never be woken at the same fake instant, by
+// construction and without any shared table (goroutines that a single event inside the service or a library
+// releases together may compute their next instants truly in parallel). Two goroutines of the bubble that wake
+// at the same instant would run in an order, or in parallel, that the runtime decides and not the seed.
+const slotNS = 16384
 
 type Sim struct {
 	On     bool
@@ -102,16 +110,16 @@ type Sim struct {
 	seq    int64
 	cur    *Task
 	tasks  []*Task
-	wakes  [128]int64
-	nw     int
 	trace  []traceEv
 	steps  int
 	// MaxSteps bounds scheduler steps per run (watchdog against livelock).
 	MaxSteps int
 	Overrun  bool
-	seed     uint64
-	main     *Task
-	bg       int
+	// SlotOverflow: a task id does not fit a scheduling slot (uniqueness of wake instants not guaranteed)
+	SlotOverflow bool
+	seed         uint64
+	main         *Task
+	bg           int
 }
 
 func NewSim(seed uint64, policy int) *Sim {
@@ -130,6 +138,9 @@ func (s *Sim) NewTask(stableID int, name string) *Task {
 	t := &Task{ID: stableID, Name: name, rng: splitmix(s.seed ^ (uint64(stableID)+1)*0x9e3779b97f4a7c15), factor: 1}
 	if t.rng == 0 {
 		t.rng = 1
+	}
+	if stableID < 0 || stableID >= slotNS {
+		s.SlotOverflow = true
 	}
 	if s.Policy == 1 {
 		// priority-like: a task is fast, medium or slow for a stretch of steps
@@ -165,53 +176,43 @@ func (s *Sim) Seq() int64 { return s.seq }
 //go:norace
 func (s *Sim) Tick() int64 { s.seq++; return s.seq }
 
-// delayFor draws the next delay of task t and reserves a unique absolute wake instant.
+// wakeAfter returns how long task t has to sleep to wake in its own slot, at least d from now.
+//
+//go:norace
+func (s *Sim) wakeAfter(t *Task, d int64) time.Duration {
+	now := int64(time.Since(s.epoch))
+	wake := (now+d)/slotNS*slotNS + int64(t.ID)%slotNS
+	for wake <= now+d-slotNS || wake <= now {
+		wake += slotNS
+	}
+	return time.Duration(wake - now)
+}
+
+// delayFor draws the next scheduling delay of task t (its own stream, its own slot).
 //
 //go:norace
 func (s *Sim) delayFor(t *Task) time.Duration {
-	d := int64(1000 + t.next()%200000) // 1µs .. 201µs
+	d := int64(20000 + t.next()%200000) // 20µs .. 220µs
 	if s.Policy == 1 {
 		if t.next()%16 == 0 {
 			t.factor = []int64{1, 8, 64}[t.next()%3]
 		}
 		d *= t.factor
 	}
-	now := int64(time.Since(s.epoch))
-	wake := now + d
-	for {
-		clash := false
-		for i := 0; i < s.nw; i++ {
-			if s.wakes[i] == wake {
-				clash = true
-				break
-			}
-		}
-		if !clash {
-			break
-		}
-		wake++
-	}
-	// drop wake instants that are in the past, then record
-	j := 0
-	for i := 0; i < s.nw; i++ {
-		if s.wakes[i] > now {
-			s.wakes[j] = s.wakes[i]
-			j++
-		}
-	}
-	s.nw = j
-	if s.nw < len(s.wakes) {
-		s.wakes[s.nw] = wake
-		s.nw++
-	}
-	return time.Duration(wake - now)
+	return s.wakeAfter(t, d)
 }
 
-// Yield is a scheduling point. With the scheduler off it only records the event.
+// Yield is a scheduling point of the current task. With the scheduler off it only records the event.
 //
 //go:norace
-func (s *Sim) Yield(pt string) {
-	t := s.cur
+func (s *Sim) Yield(pt string) { s.YieldAs(s.cur, pt) }
+
+// YieldAs is a scheduling point of task t, for callers that know their identity independently of the
+// simulator's notion of the current task (a goroutine that was blocked inside the service or a library and was
+// released together with others cannot rely on it).
+//
+//go:norace
+func (s *Sim) YieldAs(t *Task, pt string) {
 	if s.On && t != nil {
 		s.steps++
 		if s.steps > s.MaxSteps {
@@ -228,8 +229,30 @@ func (s *Sim) Yield(pt string) {
 		if t != nil {
 			id = t.ID
 		}
-		s.trace = append(s.trace, traceEv{s.seq, id, pt})
+		s.trace = append(s.trace, traceEv{s.seq, id, pt, int64(time.Since(s.epoch))})
 	}
+}
+
+// SleepAs is time.Sleep for harness code acting for task t while tasks run concurrently (provider latency,
+// waits of background tasks): the wake instant lies in t's slot like a scheduling delay.
+//
+//go:norace
+func (s *Sim) SleepAs(t *Task, d time.Duration) {
+	if t == nil {
+		t = s.main
+	}
+	time.Sleep(s.wakeAfter(t, int64(d)))
+	s.cur = t
+}
+
+//go:norace
+func (s *Sim) Sleep(d time.Duration) { s.SleepAs(s.cur, d) }
+
+// totalSteps is the number of scheduling steps of the run.
+//
+//go:norace
+func (s *Sim) totalSteps() int {
+	return s.steps
 }
 
 // StartDelay is drawn by the spawner for a child so that two tasks never start at the same instant.
@@ -252,6 +275,15 @@ func (s *Sim) TraceString() string {
 	var b strings.Builder
 	for _, e := range s.trace {
 		fmt.Fprintf(&b, "%d:%s,", e.task, e.pt)
+	}
+	return b.String()
+}
+
+// TraceDebug renders the schedule trace with the fake instants (debugging only; not hashed).
+func (s *Sim) TraceDebug() string {
+	var b strings.Builder
+	for _, e := range s.trace {
+		fmt.Fprintf(&b, "%d:%s@%d,", e.task, e.pt, e.at)
 	}
 	return b.String()
 }
